@@ -77,6 +77,8 @@ type Config struct {
 
 // default noise stubs: logging and printing never matter to a property here
 var defaultStubs = map[string]string{
+	`^golang.org/x/crypto/sha3\.xorInUnaligned$`:   "redirect:golang.org/x/crypto/sha3.xorInGeneric",
+	`^golang.org/x/crypto/sha3\.copyOutUnaligned$`: "redirect:golang.org/x/crypto/sha3.copyOutGeneric",
 	`^math/big\.addVV$`:     "redirect:math/big.addVV_g",
 	`^math/big\.subVV$`:     "redirect:math/big.subVV_g",
 	`^math/big\.addVW$`:     "redirect:math/big.addVW_g",
